@@ -84,16 +84,23 @@ def parse_tag_key_value(key_value: str, value_required=True) -> tuple[str, Any]:
     return (key, parse_tag_value(value))
 
 
+def _parses_as_itself(value: str) -> bool:
+    """
+    Returns True if the string `value` can be displayed bare and parsed back unchanged.
+    """
+    try:
+        return parse_tag_value(value) == value
+    except ValueError:
+        # E.g. a string starting with a bracket or quote that is not valid JSON.
+        return False
+
+
 def format_tag_value(value: Any) -> str:
     """
     Format a tag value.
     """
     # Simple strings (no spaces or commas or special values) can be displayed without quotes.
-    if (
-        isinstance(value, str)
-        and not re.match(".*[ ,].*", value)
-        and isinstance(parse_tag_value(value), str)
-    ):
+    if isinstance(value, str) and not re.match(".*[ ,].*", value) and _parses_as_itself(value):
         return value
     else:
         return json.dumps(value, sort_keys=True)
